@@ -442,6 +442,10 @@ def mkInjected (kind : String) (kv : KV) : Option (St V) :=
       { pre := ← kv.optVal "spre", post := ← kv.optVal "spost", median := ← kv.optVal "median" })
   | "convolve" => do pure (.convolve (← kv.vals "c") ((kv.vals "taps").getD []))
   | "delay" => do pure (.delay (← kv.nat "N") ((kv.vals "taps").getD []))
+  | "analyze" => do
+    pure (.analyze (← kv.vals "low") (← kv.vals "high") ((kv.vals "ltaps").getD []) ((kv.vals "htaps").getD []))
+  | "synthesize" => do
+    pure (.synthesize (← kv.vals "low") (← kv.vals "high") ((kv.vals "ltaps").getD []) ((kv.vals "htaps").getD []))
   -- the inner averages' own copies of the width (`mw`, `vw`) are not in the model: workloads that give them a
   -- different value reset the filter before they feed it
   | "emeanvar" => do pure (.emeanVar (← kv.val "w") { mean := ← kv.optVal "mean", var := ← kv.optVal "var" })
@@ -557,6 +561,13 @@ def stepFilterOp (d : DState) (op : String) (toks impl : List String) : Option (
     let (hist, nospec) := match st with
       | .convolve c taps => if !c.isEmpty && taps.length == c.length then (taps.map (fun v => [v]), false) else (hist, nospec)
       | .delay N taps => if 0 < N && taps.length == N then (taps.map (fun v => [v]), false) else (hist, nospec)
+      | .analyze l _ tl th =>
+        -- both rings full and holding the same samples: the analysis filter that was fed those samples
+        if !l.isEmpty && tl.length == l.length && tl.map V.render == th.map V.render then (tl.map (fun v => [v]), false)
+        else (hist, nospec)
+      | .synthesize l _ tl th =>
+        if !l.isEmpty && tl.length == l.length && th.length == l.length then ((tl.zip th).map (fun p => [p.1, p.2]), false)
+        else (hist, nospec)
       | .mean N ms =>
         if 0 < N && ms.taps.length == N && ms.mean.map V.render == some (Spec.sum ms.taps).render
             && ms.weight.render == (V.ofNat N).render
@@ -593,7 +604,14 @@ def stepFilterOp (d : DState) (op : String) (toks impl : List String) : Option (
       some (report d op { model := "PANIC", impl := implS, kind := kindName inst.st })
     | some (st', y) =>
       let clauses := if parsed.isNone then [clauseP "well-formed-output" false (renderOut (some y))] else match implOut with
-        | some yi => if inst.nospec || (inst.long.isSome && !windowKind st') then [] else specFilter inst.base st' hist yi
+        | some yi =>
+          if inst.nospec then [] else
+          if inst.long.isSome && !windowKind st' then
+            -- (long-run mode, a kind whose specification reads the whole history: only what is a predicate on the output)
+            (match st', yi with
+             | .meanVar _ _ _, [_, v] => [clauseP "C16.var-nonneg" (leV 0 v) ">= 0"]
+             | _, _ => [])
+          else specFilter inst.base st' hist yi
         -- a panic the model predicts (exact division by zero shows as `err` in the model's output) is agreement
         | none => if y.any (fun v => match v with | .err => true | _ => false) then []
                   else [clauseP "no-panic" false (renderOut (some y))]
@@ -614,6 +632,10 @@ def stepFilterOp (d : DState) (op : String) (toks impl : List String) : Option (
       let d := (stepFlags inst.st st' hist).foldl DState.flag d
       let d := d.put id { inst with st := st', hist := hist, last := some implOut, own := true }
       some (report d op { model := renderOut (some y), impl := implS, clauses := clauses, kind := kindName inst.st })
+  | ["sm", id] => do
+    -- the state borrowed through `StateMut::state_mut` and let go of again: nothing changes
+    let _ ← d.get (← id.toNat?)
+    some (report (d.flag "state-mut-peek") op { model := "ok", impl := implS })
   | ["long", id, cap] => do
     let id ← id.toNat?
     let inst ← d.get id
